@@ -333,18 +333,18 @@ macro_rules! access_2d_slice_all_bool {
     unsafe { 
       let vec_ix = &(*$ix);
       let mut j = 0;
-      let out_len = (*$out).len();
       for i in 0..vec_ix.len() {
         if vec_ix[i] == true {
           j += 1;
         }
       }
-      if j != out_len {
+      if j != (*$out).nrows() {
         (*$out).resize_vertically_mut(j, (&mut (*$out))[0].clone());
       }
+      // the output is column-major: fill it column by column
       j = 0;
-      for i in 0..vec_ix.len() {
-        for k in 0..(*$source).ncols() {
+      for k in 0..(*$source).ncols() {
+        for i in 0..vec_ix.len() {
           if vec_ix[i] == true {
             (&mut (*$out))[j] = (*$source).index((i, k)).clone();
             j += 1;
